@@ -484,9 +484,7 @@ func genC08(g *G) {
 		emitParse("-", "h", 0, "1.2.3.4 a\n::1 b", "3n,"+strings.TrimSuffix(strings.Repeat("0n,", n), ","))
 		emitParse("-", "p", 0, "1.2.3.4 a\n::1 b", strings.TrimSuffix(strings.Repeat("0n,", n), ","))
 	}
-	// (thorough tier only: the extracted model reverses lists naively and needs minutes for a 64 KiB
-	// line; in the quick tier such lines are given to Parse by the C01 stream, which only asks for a return)
-	if !g.Quick() {
+	{
 		for _, n := range []int{65534, 65535, 65536, 65537} {
 			long := "1.2.3.4 " + strings.Repeat("a", n-8)
 			emitParse("-", "h", 0, "::1 x\n"+long+"\n::1 y\n", "")
